@@ -194,3 +194,35 @@ def const_term(obj, ctab):
 
 KIND_OF_PY = {type(None): "none", bool: "bool", int: "int", float: "float", str: "str", list: "list",
               tuple: "tuple", dict: "dict", set: "set", frozenset: "set"}
+
+
+def isinstance_term(xt, cls, ctab):
+    """isinstance(x, cls) for a *known* class, written with kind testers (much easier for the solvers than type ids)."""
+    from statham.schema.constants import NotPassed
+    if cls is NotPassed:
+        return f"(k_np {xt})"
+    if cls is type(None):
+        return f"(k_none {xt})"
+    if cls is bool:
+        return f"(k_bool {xt})"
+    if cls is int:
+        return f"(or (k_int {xt}) (k_bool {xt}))"
+    if cls is float:
+        return f"(k_float {xt})"
+    if cls is str:
+        return f"(k_str {xt})"
+    if cls is tuple:
+        return f"(k_tuple {xt})"
+    if cls is set:
+        return f"(k_set {xt})"
+    if cls is list:
+        return f"(or (k_list {xt}) (and (k_obj {xt}) (subclass (class_of (oid {xt})) T_LIST)))"
+    if cls is dict:
+        return f"(or (k_dict {xt}) (and (k_obj {xt}) (subclass (class_of (oid {xt})) T_DICT)))"
+    if cls is object:
+        return TRUE
+    return f"(py_isinstance {xt} (v_cls {ctab.cid(cls)}))"
+
+
+def isinstance_any_term(xt, classes, ctab):
+    return Or(*[isinstance_term(xt, c, ctab) for c in classes])
